@@ -4,7 +4,7 @@
 # (or the reverse of it with -R; a commit id means that commit's diff) applied. Scratch is removed afterwards.
 REV=""
 if [ "$1" = "-R" ]; then REV="-R"; shift; fi
-P="$1"; shift; shift
+P="$1"; case "$P" in /*) ;; *) [ -f "$P" ] && P="$(pwd)/$P";; esac; shift; shift
 S=$(mktemp -d /tmp/mrepo.XXXXXX)
 mkdir -p "$S" && git -C /repo archive HEAD include tests | tar -x -C "$S"
 cd "$S" && git init -q . >/dev/null 2>&1
